@@ -57,7 +57,7 @@ CHECKS = {
          "Every one of the 8192 AC codes (through DF0/4/16/20 frames), 4096 ME altitude codes (through TC 9-18, 20-22 frames), 65536 gray2alt arguments and 8192 identity codes is decoded and compared with a table produced by an encoder written from the standard. The space is finite and fully enumerated, so within the trusted base this decides the property for the current tree.",
          "Trusted: the independent encoder (reflected Gray + 5-cycle C code, checked against published table points), the frame builders, serde_json. 0 ft in the 12-bit field may be 0 or unavailable.",
          "DESIGN.md 5 C13"),
- "C14": ("exhaustive enumeration of all 2^24 addresses (plus 2^20 out-of-range values) with an injectivity map and an independently parsed address-block table as oracle",
+ "C14": ("history independence (registered addresses looked up again next to each single-bit neighbour) + exhaustive enumeration of all 2^24 addresses (plus 2^20 out-of-range values) with an injectivity map and an independently parsed address-block table as oracle",
          "tail() is called for every address under catch_unwind; registrations are collected in a map (collision = violation) and each is matched against the pattern of an address block of patterns.json that contains the address; aircraft_information is cross-checked on a stride sample.",
          "Trusted: patterns.json is the address-block table; it is parsed independently of the crate's loader.",
          "DESIGN.md 5 C14"),
@@ -98,7 +98,7 @@ EXTRA = {
  "C11": ("; end to end: the real jet1090 binary with the filters given on the command line or in a configuration file, its stdout and --output file compared with the specification", " Batches of distinct frames of every address-carrying DF (and frames that do not decode) are served to the real jet1090 binary over TCP; what it prints and writes must be exactly the records whose shown df / icao24 pass."),
  "C12": ("; end to end: histories served to the real jet1090 binary over TCP, table read from its /all endpoint", " One identification in five carries an unassigned character; clocks start at Unix time, at 0 s, within the first second, at 1000 s or beyond 2^32 s. The distinct frames of such histories are also served to the real binary over TCP and /all is judged (key set, counts, seen times, provenance from the records it printed)."),
  "C13": ("; every code again right after each neighbour one bit (and two bits) away on one thread (history independence)", " An ascending sweep never decodes two codes that differ in one high bit back to back; the neighbour passes do."),
- "C16": ("; table forms with a jump host; number-like references with 0-4 parts", " The long table forms are also written with a jump host (same endpoint, same serial); references made of 0-4 number-like parts with signs, exponents and empty parts are part of the totality family."),
+ "C16": ("; table forms with a jump host; number-like references with 0-4 parts; every string parsed twice; end to end: the serial the real jet1090 binary reports for an endpoint given as string / short table / long table", " Every string is parsed twice (same answer). The real jet1090 binary, given the same endpoint in the three forms in three processes, reports the endpoint's serial in its reception metadata. The long table forms are also written with a jump host (same endpoint, same serial); references made of 0-4 number-like parts with signs, exponents and empty parts are part of the totality family."),
  "C17": ("; every printable ASCII character, six non-ASCII characters and every special key in ten contexts; long multi-byte search patterns typed and erased", " 'Other char' is not one representative: each of 95 ASCII characters, 6 non-ASCII characters and 13 special keys is pressed at start-up, after moving, in search mode (empty / non-empty pattern) and after leaving it, for 0..3 rows; patterns of 1-300 one- to four-byte characters are typed and erased."),
 }
 for k, (t, l) in EXTRA.items():
